@@ -686,3 +686,51 @@ Definition witness_holds (idx : denial_index) (n : name) (w : list (name * N)) :
 (* serveCompositeFromWire's condition; denial_impossible = Store.sharedDenialImpossible *)
 Definition wire_gate (cd kind_question denial_impossible holds : bool) : bool :=
   cd || ((kind_question || denial_impossible) && (denial_impossible || holds)).
+
+(* ================================================================== *)
+(* The wrapper BEHIND the cache (failover.ResponseWriter.WriteMsg): what the
+   cache's write-back sees is failover's final response.  A SERVFAIL with RD
+   from the primary makes it ask the fallback servers in order — unless the
+   request itself is dead (contextutil.EffectiveError) or the response is the
+   cache probe's cohort shed (ErrFailureProbeLimit); a request-local mark on
+   the primary's response (attempt limit) is carried over to whatever failure
+   is passed on.  The first fallback response that is not a failure wins. *)
+Inductive fo_primary := FoShared | FoMarkedAttempt | FoMarkedProbe | FoCtxErr | FoUseful | FoOtherFailure.
+Inductive fo_fallback := FbUseful | FbFailure.
+(* packets per fallback server in list order, and: did one give a useful answer *)
+Fixpoint fo_ask (fbs : list fo_fallback) : list Z * bool :=
+  match fbs with
+  | [] => ([], false)
+  | FbUseful :: r => (1 :: map (fun _ => 0) r, true)
+  | FbFailure :: r => let '(a, u) := fo_ask r in (1 :: a, u)
+  end.
+Definition fo_shared : req_local := mk_req_local false false false false.
+Definition fo_marked : req_local := mk_req_local false false false true.
+Definition fo_ctx : req_local := mk_req_local true false false true.
+(* the primary's own response as the cache sees it when failover passes it through *)
+Definition fo_passthrough (p : fo_primary) : downstream :=
+  match p with
+  | FoShared | FoOtherFailure => DFail fo_shared
+  | FoMarkedAttempt | FoMarkedProbe => DFail fo_marked
+  | FoCtxErr => DFail (mk_req_local true false false false)
+  | FoUseful => DUseful false
+  end.
+Definition failover_outcome (rd : bool) (p : fo_primary) (fbs : list fo_fallback) : list Z * downstream :=
+  let none := map (fun _ => 0) fbs in
+  match fbs with
+  | [] => (none, fo_passthrough p)
+  | _ =>
+    match p with
+    | FoUseful | FoOtherFailure => (none, fo_passthrough p)        (* rcode is not SERVFAIL *)
+    | _ =>
+      if negb rd then (none, fo_passthrough p) else
+      match p with
+      | FoCtxErr => (none, DFail fo_ctx)                           (* marked with the request's error *)
+      | FoMarkedProbe => (none, DFail fo_marked)                   (* the shed stays a shed *)
+      | _ =>
+          let '(asked, useful) := fo_ask fbs in
+          if useful then (asked, DUseful false)
+          else (asked, DFail (match p with FoMarkedAttempt => fo_marked | _ => fo_shared end))
+      end
+    end
+  end.
